@@ -205,6 +205,12 @@ def monOp (op : String) (args : List String) : Option String :=
     let (sa, _) ← pNat ts
     let amp := match p.ptype with | .stable a => a | .cp => 1
     some (verdict (monSsLp amp p.decimals (p.assets.map (·.amount)) after sb sa))
+  | "mon_farm_autoclose" => do
+    let (xs, _) ← pRepeat pNat 4 args
+    match xs with
+    | [remaining, startNs, expS, nowNs] =>
+      some (if remaining == 0 || startNs + expS * 1000000000 < nowNs then "ok" else "viol C11-closed-before-expiry")
+    | _ => none
   | "mon_toggle" => do
     let (good, _) ← pBit args
     some (if good then "ok" else "viol C17-toggle-effect")
